@@ -132,7 +132,7 @@ Definition fold_pairs {A} (size : nat) (ar : list (list A)) : list (list A) :=
 Definition apply_mask {A} (l : list A) (om : option (list bool)) : option (list A) :=
   match om with None => None | Some m => Some (mask_select l m) end.
 
-(* [ct] is the chord-size test: PtnFilterChord.filter, i.e. [chord_filter], in the code as it is *)
+(* [ct] is the chord-size test: PtnFilterChord.filter, i.e. [chord_filter] *)
 Definition combinations_with (ct : nfilter -> list Z -> option bool)
            (groups : list (list note)) (size : nat) (make_size2 : bool)
            (cf kf : option nfilter) (tf : option tfilter) : option (list (list (list note))) :=
@@ -163,6 +163,8 @@ Definition combinations_with (ct : nfilter -> list Z -> option bool)
   else Some (if make_size2 then map (fold_pairs size) combo_list else combo_list))).
 
 Definition combinations := combinations_with chord_filter.
+(* OLD variant (element-wise chord test, before commit 1bc6769); only for the refutation witnesses *)
+Definition combinations_old := combinations_with chord_filter_old_any.
 
 (* ---------------------------------------------------------------- templates *)
 Definition template_jacks (groups : list (list note)) (minimum_length keys : Z)
@@ -188,3 +190,4 @@ Definition template_chord_stream_with (ct : nfilter -> list Z -> option bool)
   | _, _, _ => None
   end.
 Definition template_chord_stream := template_chord_stream_with chord_filter.
+Definition template_chord_stream_old := template_chord_stream_with chord_filter_old_any.
